@@ -12,6 +12,7 @@ import Driver.C19
 import Driver.C03
 import Driver.C14
 import Driver.C04
+import Driver.C16
 open Driver
 
 def dispatch (line : String) : String :=
@@ -31,6 +32,7 @@ def dispatch (line : String) : String :=
   | "monitor" :: args => C11.monitorOp args
   | "schedmon" :: args => C11.schedmonOp args
   | "depcheck" :: args => C20.depcheck args
+  | "seriesverdict" :: args => C16.seriesverdict args
   | "canjoin" :: args => C04.canjoin args
   | "lfanalyse" :: args => C04.lfanalyse args
   | "lfpossible" :: args => C04.lfpossible args
